@@ -40,7 +40,9 @@ func infra(format string, args ...any) error { return &InfraError{Msg: fmt.Sprin
 // Env is shared by all simulations of one check invocation.
 type Env struct {
 	WorkerBin  string
-	InflBin    string
+	// RaceWorkerBin: the gensim worker built with -race (empty: no race leg).
+	RaceWorkerBin string
+	InflBin       string
 	InflRace   string
 	GoRoot     string
 	Scratch    string
@@ -359,6 +361,31 @@ func (x *Exec) doRun(op Op) (*StepRecord, error) {
 	}
 	resp, err := w.Do(req, x.Env.Timeout)
 	x.Env.Stats.Add("runs", 1)
+	if x.workerDied(err) {
+		return rec, nil
+	}
+	var panicErr *wk.PanicError
+	if err != nil && errors.As(err, &panicErr) {
+		// the process died from a panic the worker could not recover (it happened on another goroutine)
+		x.W = nil
+		planned := false
+		for _, f := range run.Faults {
+			if f.Do == "gen-panic" {
+				planned = true
+			}
+		}
+		if !planned {
+			x.wedged = true
+			x.violate(x.Sc.Property, "X0", "panic", "the process crashed: "+panicLine(panicErr.Report), nil)
+			return rec, nil
+		}
+		// an injected panic: a real process death; deferred functions of the panicking goroutine ran
+		err = wk.ErrKilled
+		if rec.Op.How == "" {
+			rec.Op.How = "kill-before-save"
+		}
+		x.Env.Stats.Add("fault/panic-fired", 1)
+	}
 	if err != nil {
 		if errors.Is(err, wk.ErrKilled) {
 			rec.Killed = true
@@ -403,6 +430,28 @@ func (x *Exec) doRun(op Op) (*StepRecord, error) {
 	}
 	x.checkRun(rec)
 	return rec, nil
+}
+
+// workerDied handles a worker that the race detector stopped: a violation, not infrastructure trouble.
+func (x *Exec) workerDied(err error) bool {
+	var raceErr *wk.RaceError
+	if err != nil && errors.As(err, &raceErr) {
+		// the race leg: gengo (or a generator) accessed memory from two goroutines without synchronisation
+		x.W = nil
+		x.wedged = true
+		x.violate(x.Sc.Property, "R1", "data-race", raceSummary(raceErr.Report), nil)
+		return true
+	}
+	return false
+}
+
+func panicLine(report string) string {
+	for _, l := range strings.Split(report, "\n") {
+		if strings.HasPrefix(l, "panic: ") || strings.HasPrefix(l, "fatal error: ") {
+			return firstLine(l)
+		}
+	}
+	return firstLine(report)
 }
 
 // doConverge repeats the last run (fault-free) until a run executes no package
@@ -545,6 +594,9 @@ func (x *Exec) doWarm(op Op) error {
 	}
 	req := &proto.RunReq{Root: troot, Args: op.Run.Args, Gens: op.Run.Gens, Sched: op.Run.Sched, NoEvents: true}
 	if _, err := w.Do(req, x.Env.Timeout); err != nil {
+		if x.workerDied(err) {
+			return nil
+		}
 		x.W = nil
 		return infra("warm run: %v", err)
 	}
